@@ -286,7 +286,8 @@ def units(tier):
              ("ff", [1, 1], {"packpos": True}), ("ffd", [2], {"attrs": "partial"}), ("dff", [1, 1], {"crc_at": "folder"}),
              ("ff", [2], {"times": "none"}), ("fd", [1], {"attrs": "none"}),
              ("fd", [1, 0], {}), ("fdf", [1, 0, 1], {}),
-             ("ff", [2], {"crc_at": "none"})]   # a base without any CRC: after the append the digest vector is partially defined   # a folder without members (what appending a lone directory leaves); above: a foreign base without any mtime / attribute property
+             ("ff", [2], {"crc_at": "none"}),
+             ("ff", [1, 1], {"packcrc": True, "packcrc_defined": [False, True]})]   # a base without any CRC: after the append the digest vector is partially defined   # a folder without members (what appending a lone directory leaves); above: a foreign base without any mtime / attribute property
     if tier == "thorough":
         bases += [("fff", [2, 1], {"times": "partial"}), ("fef", [1, 1], {"emptyfile_vector": True}), ("fdff", [2, 1], {}),
                   ("fff", [1, 2], {"packcrc": True}), ("ff", [2], {"omit_numunpack": False})]
